@@ -1,6 +1,9 @@
 package container
 
 import (
+	"os"
+	"syscall"
+
 	"github.com/criyle/go-sandbox/pkg/unixsocket"
 	"github.com/criyle/go-sandbox/zzverif/sym"
 )
@@ -199,4 +202,41 @@ func VerifC14_TwoBatches() {
 		}
 	}
 	sym.Reach("both-batches")
+}
+
+// VerifC14_SymlinkBatch: a Symlink batch of three items with a symbolic failure per item: the
+// k-th result is an error exactly when the k-th creation failed, and every item is attempted
+// with its own target and link path whatever happened to the items before it.
+func VerifC14_SymlinkBatch() {
+	w := newWorld()
+	w.quietFS = true
+	links := []SymbolicLink{{LinkPath: "/w/l0", Target: "/t0"}, {LinkPath: "/w/l1", Target: "/t1"}, {LinkPath: "/w/l2", Target: "/t2"}}
+	fails := []bool{sym.Bool("l0_fails"), sym.Bool("l1_fails"), sym.Bool("l2_fails")}
+	attempted := []bool{false, false, false}
+	sym.Intercept("os.Symlink", func(oldname, newname string) error {
+		for k, l := range links {
+			if l.LinkPath == newname {
+				sym.Assert(oldname == l.Target, "link created with the target of another item")
+				attempted[k] = true
+				if fails[k] {
+					return &os.LinkError{Op: "symlink", Old: oldname, New: newname, Err: syscall.EEXIST}
+				}
+				return nil
+			}
+		}
+		sym.Assert(false, "a link was created that no item asked for")
+		return nil
+	})
+	res, err := w.host.Symlink(links)
+	sym.Assert(err == nil, "a failing item must not fail the batch")
+	if err != nil {
+		return
+	}
+	sym.Assert(len(res) == len(links), "Symlink must return one result per item")
+	for k := range links {
+		sym.Assert(attempted[k], "an item was not attempted because an earlier one failed")
+		sym.Assert((res[k] != nil) == fails[k], "the k-th result does not belong to the k-th item")
+	}
+	sym.Reach("batch-done")
+	sym.Assert(w.host.Ping() == nil, "the environment is unusable after a failing item")
 }
